@@ -24,11 +24,11 @@ TECHNIQUE = "stateless schedule exploration (choice-sequence DFS, iterative devi
 RULE = ("pipelines {two mapped functions + reduction, 2-D map -> partial reduction -> full reduction, tuple-output map -> zip consumer, generator -> outer "
         "product, internal-axis-first -> reduction; plus (single executor, B=1, sequential/thread real pools only) a map whose every element is None -> element-wise consumer; custom picker / 1-tuple / list-valued reducers; a pipeline under a scope s with two functions without MapSpec side by side} x storage {file_array, dict, shared_memory_dict, per-output mixes} x executor assignment {one, per-output "
         "dict, default-only dict, partial dict} x {map, map_async}; for each configuration every schedule with <= B deviations (deviation = not letting the "
-        "caller continue after a submit / not running the oldest pending task when one must run). Task-splitting: the tasks of a generation as logical threads preempted (<= B times) at user-function entry / argument selection / storage dump; storage-lines: the same with a preemption point at EVERY source line of pipefunc/map/_storage_array/ executed by a task, where every departure from the default successor thread counts as a deviation (file_array, dict; thorough also shared_memory_dict, and B=2 for dict storage and two file_array pipelines). Plus the same configurations on real Thread/Process pools "
+        "caller continue after a submit / not running the oldest pending task when one must run). Task-splitting: the tasks of a generation as logical threads preempted (<= B times) at user-function entry / argument selection / storage dump; storage-lines: the same with a preemption point at EVERY source line of pipefunc/map/_storage_array/ executed by a task, and map-lines: at every source line of the whole pipefunc/map/ package (quick: file_array for three pipelines, dict for two; thorough: all pipelines x all three storages), where every departure from the default successor thread counts as a deviation (file_array, dict; thorough also shared_memory_dict, and B=2 for dict storage and two file_array pipelines). Plus the same configurations on real Thread/Process pools "
         "(one free-running schedule each, not claimed as schedule coverage)")
-ASSUMPTIONS = ["a submitted task is atomic in the deferred executor; in task-splitting mode tasks are logical threads with scheduling points at user-function entry and storage dump only; in storage-lines mode additionally at every source line executed inside pipefunc/map/_storage_array/ (a line is atomic)", "reference = MapSpec denotation of vmc/gen_map.py",
+ASSUMPTIONS = ["a submitted task is atomic in the deferred executor; in task-splitting mode tasks are logical threads with scheduling points at user-function entry and storage dump only; in storage-lines / map-lines mode additionally at every source line executed inside pipefunc/map/_storage_array/ resp. pipefunc/map/ (a line is atomic)", "reference = MapSpec denotation of vmc/gen_map.py",
                "real pools contribute one OS-chosen schedule per configuration"]
-BUDGET = {"quick": 100.0, "thorough": 1800.0}
+BUDGET = {"quick": 150.0, "thorough": 2400.0}
 
 S2 = {"i": 2, "j": 2, "u": 2, "k": 2, "w": 2, "m": 2}
 
@@ -190,14 +190,14 @@ def execute(cfg, chooser):  # noqa: C901, PLR0912
     inputs = gen_map.make_inputs(spec, "list")
     s = sched.Sched(chooser, eager_loop=bool(cfg.get("eager_loop", False)))
     baton = None
-    if cfg["exec"] in ("baton", "baton-lines"):
+    if cfg["exec"] in ("baton", "baton-lines", "baton-maplines"):
         # task-splitting mode: the tasks of a generation are logical threads that interleave at user-function entry and at
         # storage dumps, so tasks overlap and start order differs from completion order
         from .. import threads
         _install_select_point()
         # "baton-lines": additionally EVERY source line a task executes inside pipefunc/map/_storage_array/ is a scheduling
         # point, so state that the storage objects share between tasks without any lock is interleaved too
-        baton = threads.BatonExecutor(chooser, trace_files=("pipefunc/map/_storage_array/",) if cfg["exec"] == "baton-lines" else ())
+        baton = threads.BatonExecutor(chooser, trace_files={"baton-lines": ("pipefunc/map/_storage_array/",), "baton-maplines": ("pipefunc/map/",)}.get(cfg["exec"], ()))
         ex, expected_ex = baton, {}
     else:
         ex, expected_ex = make_executors(spec, cfg["exec"], s)
@@ -456,24 +456,37 @@ def _core(cfg):
 
 # (stage bound, which configurations): bounds are iterated upwards, simplest first; a stage explores ALL schedules with
 # at most that many deviations of each of its configurations
-STAGES = {"quick": [(1, "all"), (2, "core"), (1, "task-splitting"), (1, "storage-lines")],
-          "thorough": [(1, "all"), (2, "all"), (1, "eager-loop"), (2, "task-splitting"), (1, "storage-lines"), (2, "storage-lines-small"), (3, "core"), (2, "eager-loop-core"), (4, "core-sync-dict")]}
+STAGES = {"quick": [(1, "all"), (2, "core"), (1, "task-splitting"), (1, "storage-lines"), (1, "map-lines")],
+          "thorough": [(1, "all"), (2, "all"), (1, "eager-loop"), (2, "task-splitting"), (1, "storage-lines"), (1, "map-lines"), (2, "storage-lines-small"), (3, "core"), (2, "eager-loop-core"), (4, "core-sync-dict")]}
 
 
 def plan(tier, seed):
     units = []
     cfgs = configs(tier)
     for b, which in STAGES[tier]:
-        if which.startswith("storage-lines"):
-            # tasks as logical threads that can be preempted at EVERY source line of the storage-array code (unsynchronised
-            # state shared by the tasks of one process: read caches, masks, counters)
+        if which.startswith("storage-lines") or which == "map-lines":
+            # tasks as logical threads that can be preempted at EVERY source line of the storage-array code ("storage-lines") or
+            # of the whole pipefunc/map/ package ("map-lines"): unsynchronised state shared by the tasks of one process - read
+            # caches, masks, counters, scratch buffers - has no lock or proxy call at which another scheduler could stop a task
+            mode = "baton-maplines" if which == "map-lines" else "baton-lines"
             for pipe in PIPES:
-                for st in ("file_array", "dict") + (("shared_memory_dict",) if tier == "thorough" and b == 1 else ()):
+                if which == "map-lines":
+                    sts = ("dict", "file_array") if tier == "quick" else ("dict", "file_array", "shared_memory_dict")
+                else:
+                    sts = ("file_array", "dict") if tier == "quick" else (("file_array", "shared_memory_dict") if b == 1 else ("dict", "file_array"))
+                for st in sts:
                     if which.endswith("small") and not (st == "dict" or pipe in ("generator-outer", "tuple-zip")):
                         continue
-                    ns = (3 if st != "dict" else 1) * (1 if b == 1 else 16)
+                    if tier == "quick":
+                        # quick bound: map-lines (a superset of the storage-lines points) on file_array for three pipelines and on
+                        # dict for two; storage-lines on file_array for the other two pipelines
+                        in_map_lines = (st == "file_array" and pipe in ("two-maps-reduce", "tuple-zip", "internal-first-reduce")) or \
+                                       (st == "dict" and pipe in ("two-maps-reduce", "generator-outer"))
+                        if (which == "map-lines") != in_map_lines:
+                            continue
+                    ns = (4 if (st != "dict" or which == "map-lines") else 1) * (1 if b == 1 else 16)
                     for k in range(ns):
-                        units.append((f"storage-code-line-preemptions<={b}", ("dfs", {"pipe": pipe, "storage": st, "exec": "baton-lines", "entry": "sync"}, b, (k, ns))))
+                        units.append((f"{which.replace('-small', '')}-preemptions<={b}", ("dfs", {"pipe": pipe, "storage": st, "exec": mode, "entry": "sync"}, b, (k, ns))))
             continue
         if which == "task-splitting":
             for pipe, spec in PIPES.items():
